@@ -21,7 +21,7 @@ m = {
         "name": "iggy-verif harness",
         "path": "harness/",
         "serves_properties": sorted(CHECKS.keys()),
-        "kind_free_text": "Rust binary that starts the real server in-process (System + TCP/HTTP front ends), drives seeded hostile workloads through real clients and evaluates reference-model / history / fault-enumeration oracles; python driver ./check shards it over 16 cores and merges what the monitors observed into evidence",
+        "kind_free_text": "Rust binary that starts the real server in-process (System + TCP/HTTP front ends, and the QUIC listener in part of the C09/C13 histories), drives seeded hostile workloads through real clients and evaluates reference-model / history / fault-enumeration oracles; python driver ./check shards it over 16 cores and merges what the monitors observed into evidence",
     }],
     "checks": [],
     "notes": "Runtime monitoring only: every verdict is an oracle observing executions of the real code. See DESIGN.md. Known findings: known_findings.json.",
